@@ -28,6 +28,7 @@ import adjoint_dense as D
 import adjoint_grid as G
 import adjoint_trees as T
 import adjoint_types as Y
+import adjoint_translate
 import common
 from common import ModelErr, fs2b, b2f
 
@@ -71,6 +72,7 @@ EXTRA_TARGETS = ["Drv.Adjoint"]
 DRIVER = "Adjoint"
 FILES = [
     "scico/linop/_linop.py",
+    "scico/operator/_operator.py",
     "scico/_autograd.py",
     "scico/linop/_stack.py",
     "scico/operator/_stack.py",
@@ -119,6 +121,17 @@ KNOWN_JAC = "jacobian-include-eval"
 
 def _js(o):
     return json.loads(json.dumps(o, default=str))
+
+
+def generate(ctx):
+    """translator: override table of every LinearOperator class, closures / declared metadata of the derived constructors,
+    branch structure of linear_adjoint and digests of the methods the model follows line by line - read from the working
+    tree with `ast`, against the pinned tables of Scico/Proofs/AdjointTables.lean (four `decide` obligations)"""
+    adjoint_translate.generate()
+    return [("Scico.Generated.AdjointTables",
+             "which classes hand-write their adjoint / views / arithmetic, eval_fn / adj_fn / metadata of the derived constructors of "
+             "_linop.py, the three branches of scico.linear_adjoint, and the statements of the guards, stack adjoints, class overrides, "
+             "CircularConvolve and X-ray methods equal the tables the model was written against")]
 
 
 def build_and_check(cfg, rng, builder=None):
@@ -685,6 +698,15 @@ def sample_grid(ctx, cfgs, n):
 def correspond(ctx, model):
     common.setup_scico()
     rng = ctx.rng
+    import time as _time
+
+    _t = [_time.time()]
+    walls = ctx.extra.setdefault("stream_wall_s", {})
+
+    def _mark(name):
+        walls[name] = round(_time.time() - _t[0], 1)
+        _t[0] = _time.time()
+
     # 0. the pairing of the model is the one valid_adjoint uses -------------------------------------------------
     for _ in range(ctx.n(5, 20)):
         n = int(rng.integers(0, 6))
@@ -696,28 +718,33 @@ def correspond(ctx, model):
         ctx.case({"stream": "ip", "n": n}, None)
         if not (common.close(got.real, want.real, n) and common.close(got.imag, want.imag, n)):
             ctx.disagree("adjoint.ip", {"n": n, "u": D._js(u), "w": D._js(w)}, [want.real, want.imag], [got.real, got.imag])
+    _mark("ip")
     # 1. corpus ---------------------------------------------------------------------------------------------------
     cdir = common.CORPUS_DIR / "C01"
     for f in sorted(cdir.glob("*.json")) if cdir.exists() else []:
         case = json.loads(f.read_text())
         ctx.count("corpus")
-        if "tree" in case:
+        if case.get("types"):
+            run_types_case(ctx, model, case)
+        elif "tree" in case:
             run_tree_case(ctx, model, case["tree"], case["leaves"], rng, stream="corpus")
         else:
             run_config(ctx, model, case["cfg"], rng, views=case.get("views", False), stream="corpus")
+    _mark("corpus")
     # 2. class grid: finite obligations of C01_basis -----------------------------------------------------------------
     full = G.grid()
     if ctx.thorough:
         cfgs = full
         ctx.exhaustive = True
     else:
-        cfgs = sample_grid(ctx, full, ctx.n(230, len(full)))
+        cfgs = sample_grid(ctx, full, ctx.n(205, len(full)))
         ctx.exhaustive = False
     ctx.extra["grid"] = {"configurations_total": len(full), "configurations_run": len(cfgs)}
     nviews = ctx.n(36, 160)
     view_idx = set(int(i) for i in rng.permutation(len(cfgs))[:nviews])
     for i, cfg in enumerate(cfgs):
         run_config(ctx, model, cfg, rng, views=(i in view_idx), stream="grid")
+    _mark("grid")
     # 3. derived forms of the grid (T, H, conj, c*A, A/c, A+B, A-B, A@B, gram) -------------------------------------------
     dfull = G.derived_grid()
     unary = [c for c in dfull if c["form"] not in ("add", "sub", "comp")]
@@ -735,10 +762,12 @@ def correspond(ctx, model):
     pick_s = rest if ctx.thorough else [rest[int(i)] for i in rng.permutation(len(rest))[:50]]
     for cfg in always + pick_s:
         run_config(ctx, model, cfg, rng, views=False, stream="shortcut")
+    _mark("derived")
     # 4. leaf models ------------------------------------------------------------------------------------------------
     leaf_models(ctx, model, rng)
     spectral_models(ctx, model, rng)
     closed_models(ctx, model, rng)
+    _mark("leaf-models")
     # 5. random derivation trees against the Lean model -------------------------------------------------------------
     ntrees = ctx.n(45, 90)
     maxd = ctx.n(3, 5)
@@ -747,11 +776,14 @@ def correspond(ctx, model):
         depth = int(rng.integers(1, maxd + 1))
         tree, leaves, forms = T.random_tree(rng, depth, dt)
         run_tree_case(ctx, model, tree, leaves, rng)
+    _mark("trees")
     # 6. malformed stream: one size mismatch in the tree -> both sides reject -------------------------------------
     for t in range(ctx.n(12, 60)):
         malformed_case(ctx, model, rng)
+    _mark("malformed")
     # 7. dtype / shape layer: guards of adj, declared metadata, "adj never fails for a conforming input" -------------
     types_stream(ctx, model, rng)
+    _mark("types")
 
 
 def run_tree_case(ctx, model, tree, leaves, rng, stream="tree"):
@@ -1094,7 +1126,7 @@ def types_stream(ctx, model, rng):
     acceptance at construction, result type / error kind of D(x) and D.adj(y) for y of every dtype - model vs code at
     EVERY node; instance of C01_adj_total on the code"""
     coded = ctx.is_known(Y.KNOWN_T)  # `.T` as the code has it while the finding is open, else with the repaired dtypes
-    ntrees = ctx.n(60, 300)
+    ntrees = ctx.n(45, 300)
     maxd = ctx.n(3, 4)
     for t in range(ntrees):
         g = Y.Gen(rng, [0.0, 0.15, 0.4][t % 3])
@@ -1105,6 +1137,66 @@ def types_stream(ctx, model, rng):
         fl = [Y.faithful(w) for w in lw]
         for nd in g.nodes:
             types_node(ctx, model, g, nd, lw, fl, coded)
+    types_exhaustive(ctx, model, rng)
+
+
+def run_types_case(ctx, model, case):
+    """one recorded typed tree (corpus): every node against the dtype / shape model"""
+    coded = ctx.is_known(Y.KNOWN_T)
+    with warnings.catch_warnings():
+        warnings.simplefilter("ignore")
+        ops = [Y.build_leaf(c) for c in case["leaves"]]
+        g = Y.Gen(None, 0.0)
+        g.leaves, g.ops = case["leaves"], ops
+
+        def reb(t):
+            if t["k"] == "leaf":
+                return Y.Node(t, ops[t["i"]])
+            ch = [reb(c) for c in ([t[k] for k in ("a", "b") if k in t] + list(t.get("ops", [])))]
+            node = {k: v for k, v in t.items() if k not in ("a", "b", "ops")}
+            if "sk" in node and "pysk" not in node:
+                node["pysk"], node["side"] = node["sk"], 0
+            return g.combine(node, ch)
+
+        reb(case["tree"])
+        lw = [Y.leaf_wire(o) for o in ops]
+    fl = [Y.faithful(w) for w in lw]
+    for nd in g.nodes:
+        types_node(ctx, model, g, nd, lw, fl, coded, stream="corpus-types")
+
+
+def types_exhaustive(ctx, model, rng):
+    """EXHAUSTIVE small scope of the dtype layer: every derived construction applied to leaves of EVERY combination of input
+    and output dtype (16 generic leaves (2,)->(2,)): 16 x {neg, T, H, conj, gram, c* and /c for the 8 scalar typings} and
+    16 x 16 x {+, -, @} - each compared with the model as a typed-tree node (thorough: all 1 104; quick: a seeded sample)"""
+    coded = ctx.is_known(Y.KNOWN_T)
+    g = Y.Gen(rng, 0.0)
+    with warnings.catch_warnings():
+        warnings.simplefilter("ignore")
+        base = [g.leaf((2,), (2,), i, o, False) for i in Y.DTN for o in Y.DTN]
+        lw = [Y.leaf_wire(op) for op in g.ops]
+    fl = [Y.faithful(w) for w in lw]
+    sks = ["wreal", "wcplx", "float32", "float64", "complex64", "complex128", "jfloat32", "jcomplex64"]
+    cases = []
+    for a in range(len(base)):
+        for k in ("neg", "T", "H", "conj", "gram"):
+            cases.append(({"k": k}, [a]))
+        for k in ("smul", "sdiv"):
+            for sk in sks:
+                cases.append(({"k": k, "sk": Y.sk_wire(sk), "pysk": sk, "side": (a + len(sk)) % 2}, [a]))
+        for b in range(len(base)):
+            for k in ("add", "sub", "comp"):
+                cases.append(({"k": k}, [a, b]))
+    total = len(cases)
+    if not ctx.thorough:
+        cases = [cases[int(i)] for i in rng.permutation(total)[: ctx.n(70, total)]]
+    ctx.extra["types_exhaustive"] = {"cases_total": total, "cases_run": len(cases), "leaves": len(base)}
+    for node, idx in cases:
+        g.nodes = []
+        with warnings.catch_warnings():
+            warnings.simplefilter("ignore")
+            nd = g.combine(dict(node), [base[i] for i in idx])
+        types_node(ctx, model, g, nd, lw, fl, coded, stream="types-exhaustive")
 
 
 def _poisoned(nd):
